@@ -153,57 +153,7 @@ def run(prog: Program, rep: Report, tier: str):
             rep.decide(not problems, "G4.seed-epoch", fi, construct,
                        f"seed {show(seed)}: depends on {{{', '.join(sorted(attrs))}}}",
                        f"seed {show(seed)} " + "; ".join(problems), line=call.lineno, clause="C12.1")
-        # ---- rank split ---------------------------------------------------------------------------------------
-        splits = []
-        for n in sorted(fa.cfg.nodes):
-            for x in fa.cfg.walk_node(n):
-                if isinstance(x, ast.Subscript) and isinstance(x.slice, ast.Slice) and x.slice.step is not None:
-                    splits.append((n, x))
-        if not splits:
-            rep.bad("G9.rank-split", fi, "split", "no strided slice: the global draw is not distributed among ranks",
-                    clause="C12.3")
-        for n, x in splits:
-            lo = fa.sym.term(x.slice.lower, n) if x.slice.lower is not None else None
-            st = fa.sym.term(x.slice.step, n)
-            hi = fa.sym.term(x.slice.upper, n) if x.slice.upper is not None else None
-            ok = lo == ("self", rank_a) and st == ("self", world_a)
-            why = f"[{show(lo) if lo else ''}:{show(hi) if hi else ''}:{show(st)}]"
-            hi_ok = hi is None or hi in (("self", "effective_length"), ("self", "total_size")) or \
-                hi == ("call", ("global", "len"), (fa.sym.term(x.value, n),), ())
-            rep.decide(ok and hi_ok, "G9.rank-split", fi, "split", f"strided slice {why}",
-                       f"the rank split {why} is not [self.{rank_a} : <total> : self.{world_a}]", line=x.lineno,
-                       clause="C12.3")
-        ys = [n for n, y in fa.yields()]
-        if splits and ys:
-            sn = splits[-1][0]
-            # truncation to len(self) (or the torch-derived assertion) between split and yield, on every path
-            trunc = set()
-            for n in sorted(fa.cfg.nodes):
-                nd = fa.cfg.nodes[n]
-                for x in fa.cfg.walk_node(n):
-                    if isinstance(x, ast.Subscript) and isinstance(x.slice, ast.Slice) and x.slice.step is None \
-                            and x.slice.lower is None and x.slice.upper is not None:
-                        up = fa.sym.term(x.slice.upper, n)
-                        if up == ("call", ("global", "len"), (("param", fa.self_name),), ()):
-                            trunc.add(n)
-                if nd.kind == "test" and isinstance(nd.owner, ast.Assert):
-                    t = fa.sym.term(nd.ast, n)
-                    if t[0] == "eq" and contains(t, ("self", "num_samples")):
-                        trunc.add(n)
-            last_y = [y for y in ys if fa.cfg.reachable(sn, y) or y == sn]
-            ok = bool(trunc) and all(fa.cfg.must_pass(trunc, src=sn, dst=y) for y in last_y) and bool(last_y)
-            rep.decide(ok, "G9.rank-split", fi, "truncate", "per-rank list cut to len(self) before it is yielded",
-                       "the per-rank list is yielded without being cut to len(self): ranks whose slice is one longer "
-                       "emit an extra index", line=fa.line(sn), clause="C12.3")
-        ln = C.methods.get("__len__")
-        if ln is not None:
-            la = fa_of(prog, ln)
-            rets = [t for _, t in la.returns() if t is not None]
-            want = ("binop", "//", ("self", "effective_length"), ("self", world_a))
-            rep.decide(len(rets) == 1 and rets[0] == want, "G9.rank-split", ln, "len",
-                       "__len__ = effective_length // world size",
-                       f"__len__ returns {show(rets[0]) if rets else '?'}, not effective_length // {world_a}",
-                       clause="C12.4")
+        splits = rank_split_rules(prog, rep, C, fi, fa, rank_a, world_a, clause="C12.3")
         # ---- repeated augmentation ----------------------------------------------------------------------------------
         reps = [(n, c) for n, c in fa.calls_named("repeat_interleave")]
         if reps and splits:
@@ -256,6 +206,66 @@ def run(prog: Program, rep: Report, tier: str):
             rep.decide(kw_ok, "G8.repeat-before-split", fi, "repeat", "repeat_interleave(num_repeats)",
                        "repeats is not self.num_repeats", line=fa.line(rn), clause="C12.5", nontrivial=False)
     names.check(prog, rep, FILES, clause="C12.G1", floor=15)
+
+
+def rank_split_rules(prog: Program, rep: Report, C: ClassInfo, fi: FuncInfo, fa: FA, rank_a: str, world_a: str, clause: str):
+    """Strided rank split, truncation to len(self) between split and yield, __len__ (shared by C12 and C13)."""
+    rep.rule("G9.rank-split", "the per-rank stream is the strided slice [rank : total : world] of the global draw (lower = the "
+             "rank attribute, step = the world-size attribute), followed on every path to the yield by a truncation to "
+             "len(self) (torch-derived sampler: an assertion len == num_samples); __len__ = effective_length // world size")
+    # ---- rank split ---------------------------------------------------------------------------------------
+    splits = []
+    for n in sorted(fa.cfg.nodes):
+        for x in fa.cfg.walk_node(n):
+            if isinstance(x, ast.Subscript) and isinstance(x.slice, ast.Slice) and x.slice.step is not None:
+                splits.append((n, x))
+    if not splits:
+        rep.bad("G9.rank-split", fi, "split", "no strided slice: the global draw is not distributed among ranks",
+                clause=clause)
+    for n, x in splits:
+        lo = fa.sym.term(x.slice.lower, n) if x.slice.lower is not None else None
+        st = fa.sym.term(x.slice.step, n)
+        hi = fa.sym.term(x.slice.upper, n) if x.slice.upper is not None else None
+        ok = lo == ("self", rank_a) and st == ("self", world_a)
+        why = f"[{show(lo) if lo else ''}:{show(hi) if hi else ''}:{show(st)}]"
+        hi_ok = hi is None or hi in (("self", "effective_length"), ("self", "total_size")) or \
+            hi == ("call", ("global", "len"), (fa.sym.term(x.value, n),), ())
+        rep.decide(ok and hi_ok, "G9.rank-split", fi, "split", f"strided slice {why}",
+                   f"the rank split {why} is not [self.{rank_a} : <total> : self.{world_a}]", line=x.lineno,
+                   clause=clause)
+    ys = [n for n, y in fa.yields()]
+    if splits and ys:
+        sn = splits[-1][0]
+        # truncation to len(self) (or the torch-derived assertion) between split and yield, on every path
+        trunc = set()
+        for n in sorted(fa.cfg.nodes):
+            nd = fa.cfg.nodes[n]
+            for x in fa.cfg.walk_node(n):
+                if isinstance(x, ast.Subscript) and isinstance(x.slice, ast.Slice) and x.slice.step is None \
+                        and x.slice.lower is None and x.slice.upper is not None:
+                    up = fa.sym.term(x.slice.upper, n)
+                    if up == ("call", ("global", "len"), (("param", fa.self_name),), ()):
+                        trunc.add(n)
+            if nd.kind == "test" and isinstance(nd.owner, ast.Assert):
+                t = fa.sym.term(nd.ast, n)
+                if t[0] == "eq" and contains(t, ("self", "num_samples")):
+                    trunc.add(n)
+        last_y = [y for y in ys if fa.cfg.reachable(sn, y) or y == sn]
+        ok = bool(trunc) and all(fa.cfg.must_pass(trunc, src=sn, dst=y) for y in last_y) and bool(last_y)
+        rep.decide(ok, "G9.rank-split", fi, "truncate", "per-rank list cut to len(self) before it is yielded",
+                   "the per-rank list is yielded without being cut to len(self): ranks whose slice is one longer "
+                   "emit an extra index", line=fa.line(sn), clause=clause)
+    ln = C.methods.get("__len__")
+    if ln is not None:
+        la = fa_of(prog, ln)
+        rets = [t for _, t in la.returns() if t is not None]
+        want = ("binop", "//", ("self", "effective_length"), ("self", world_a))
+        rep.decide(len(rets) == 1 and rets[0] == want, "G9.rank-split", ln, "len",
+                   "__len__ = effective_length // world size",
+                   f"__len__ returns {show(rets[0]) if rets else '?'}, not effective_length // {world_a}",
+                   clause=clause)
+
+    return splits
 
 
 def padding_rule(prog: Program, rep: Report):
